@@ -789,6 +789,9 @@ func runC16(c *report.Ctx) {
 				w.close()
 			}
 		}
+		if c.Expired() {
+			continue // cut by the time budget: counted as not completed below
+		}
 		c.Stats.Class(fmt.Sprintf("distinct-final-fired-sets-over-all-batchings=%d", len(outcomes)))
 		if len(outcomes) > 1 && sampled < 2 {
 			sampled++
